@@ -115,6 +115,13 @@ def private_copy(ctx, rule="R11.3"):
 def change_detection(ctx, rule="R11.4"):
     """compare() must look at every parameter field a CovModel setter can write, and do so exactly."""
     prog = ctx.prog
+    cmp_fn = prog.func("covmodel/tools.py", "compare")
+    eq_stores = sorted((n for n in ast.walk(cmp_fn) if (isinstance(n, ast.Assign) and any(isinstance(t, ast.Name) and t.id == "equal" for t in n.targets))
+                        or (isinstance(n, ast.AugAssign) and isinstance(n.target, ast.Name) and n.target.id == "equal")), key=lambda n: n._ord)
+    if eq_stores:
+        later_plain = [norm_stmt(n)[:60] for n in eq_stores[1:] if not (isinstance(n, ast.AugAssign) and isinstance(n.op, ast.BitAnd))
+                       and not (isinstance(n, ast.Assign) and isinstance(n.value, ast.BoolOp) and isinstance(n.value.op, ast.And) and any(isinstance(v, ast.Name) and v.id == "equal" for v in n.value.values))]
+        ctx.check(not later_plain, rule, "covmodel/tools.py::compare", "every comparison is AND-ed into the verdict (a plain assignment would discard the earlier ones)%s" % ("" if not later_plain else ": " + "; ".join(later_plain)), "verdict-accumulates")
     cm = prog.cls("covmodel/base.py", "CovModel")
     tools = prog.mod("covmodel/tools.py")
     extra = {n: (tools, tools.functions[n]) for n in ("set_dim", "set_arg_bounds", "check_arg_bounds", "set_opt_args") if n in tools.functions}
@@ -383,6 +390,10 @@ def update_before_generate(ctx, rule="R11.7"):
 
 
 def run(ctx):
+    from . import C15_kernels as _K
+
+    _K.accumulator_reset(ctx, rule="R11.11")  # mode-summation kernels: phase reset per mode, every point and mode visited (shared with C15)
+    _K.full_extent(ctx, rule="R11.11")
     from ..small import none_default_rule
 
     none_default_rule(ctx, "R11.8", ["field/", "random/"], 20)
